@@ -161,6 +161,9 @@ struct Req {
     guard: Option<u64>,
     /// written as `| |{ tK() }@…` (an anonymous closure) instead of `tK@…`
     lambda: bool,
+    /// `Some(v)`: written `selK(time, v)`; `fn selK(t, v){ (| |{ if (v > 0.5) { tK() } else { tK'() } })@t }` makes a closure
+    /// with ONE UPVALUE (the argument `v`, captured by value: a record of two cells on WASM); `K' = K-1` (0 for K = 0)
+    upv: Option<f64>,
 }
 
 #[derive(Clone, Debug)]
@@ -188,7 +191,10 @@ fn reqs_to_string(v: &[Req]) -> String {
                 r.c.to_bits(),
                 r.target,
                 r.guard.map_or("-".to_string(), |g| g.to_string()),
-                if r.lambda { ":l" } else { "" }
+                match r.upv {
+                    Some(v) => format!(":u{:016x}", v.to_bits()),
+                    None => (if r.lambda { ":l" } else { "" }).to_string(),
+                }
             )
         })
         .collect::<Vec<_>>()
@@ -208,6 +214,11 @@ fn parse_reqs(s: &str) -> Vec<Req> {
                 target: f[2].parse().unwrap(),
                 guard: if f[3] == "-" { None } else { Some(f[3].parse().unwrap()) },
                 lambda: f.len() > 4 && f[4] == "l",
+                upv: if f.len() > 4 && f[4].starts_with('u') {
+                    Some(f64::from_bits(u64::from_str_radix(&f[4][1..], 16).unwrap()))
+                } else {
+                    None
+                },
             }
         })
         .collect()
@@ -247,7 +258,12 @@ fn fmt_f(c: f64) -> String {
 
 fn req_src(r: &Req) -> String {
     let clo = if r.lambda { format!("| |{{ t{}() }}", r.target) } else { format!("t{}", r.target) };
-    let at = if r.abs { format!("{clo}@{}", fmt_f(r.c)) } else { format!("{clo}@(now+{})", fmt_f(r.c)) };
+    let at = match r.upv {
+        Some(v) if r.abs => format!("sel{}({}, {})", r.target, fmt_f(r.c), fmt_f(v)),
+        Some(v) => format!("sel{}(now+{}, {})", r.target, fmt_f(r.c), fmt_f(v)),
+        None if r.abs => format!("{clo}@{}", fmt_f(r.c)),
+        None => format!("{clo}@(now+{})", fmt_f(r.c)),
+    };
     match r.guard {
         None => format!("    {at}\n"),
         Some(g) => format!("    if (now < {}) {{ {at} }} else {{ nop() }}\n", fmt_f(g as f64)),
@@ -282,6 +298,14 @@ fn table_to_source(t: &Table) -> String {
             s += &req_src(r);
         }
         s += "}\n";
+        // helper making a closure with one upvalue (defined after tK: no forward references)
+        let has_sel = t.global.iter().chain(t.dsp.iter()).chain(t.tasks.iter().flatten()).any(|r| r.upv.is_some() && r.target == i);
+        if has_sel {
+            s += &format!(
+                "fn sel{i}(t, v){{\n    (| |{{ if (v > 0.5) {{ t{i}() }} else {{ t{}() }} }})@t\n}}\n",
+                i.saturating_sub(1)
+            );
+        }
     }
     for r in &t.global {
         s += req_src(r).trim_start();
@@ -405,7 +429,11 @@ fn ideal_total(t: &Table, cap: u64) -> Option<u64> {
     let push = |pending: &mut BTreeMap<u64, Vec<usize>>, r: &Req, now: u64| {
         if r.guard.map_or(true, |g| now < g) {
             let w = if r.abs { r.c } else { now as f64 + r.c };
-            pending.entry(w as u64).or_default().push(r.target);
+            let target = match r.upv {
+                Some(v) if !(v > 0.5) => r.target.saturating_sub(1),
+                _ => r.target,
+            };
+            pending.entry(w as u64).or_default().push(target);
         }
     };
     for r in &t.global {
@@ -454,8 +482,29 @@ fn wasm_total(t: &Table, cap: u64) -> Option<u64> {
             self.0.cmp(&o.0)
         }
     }
+    /// a memory cell: function word of `tK`, function word of the closure of `selK`, a captured float
+    #[derive(Clone, Copy)]
+    enum W {
+        Fn(usize),
+        Lam(usize),
+        Up(f64),
+    }
+    // writes the record of request `r` at `a`, returns its size in cells
+    let write = |mem: &mut HashMap<u64, W>, a: u64, r: &Req| -> u64 {
+        match r.upv {
+            Some(v) => {
+                mem.insert(a, W::Lam(r.target));
+                mem.insert(a + 1, W::Up(v));
+                2
+            }
+            None => {
+                mem.insert(a, W::Fn(r.target));
+                1
+            }
+        }
+    };
     let mut heap: BinaryHeap<Reverse<T>> = BinaryHeap::new();
-    let mut mem: HashMap<u64, usize> = HashMap::new();
+    let mut mem: HashMap<u64, W> = HashMap::new();
     let mut total = 0u64;
     let mut addr = 0u64;
     for r in &t.global {
@@ -463,9 +512,9 @@ fn wasm_total(t: &Table, cap: u64) -> Option<u64> {
         if w == 0 {
             return Some(total);
         }
-        mem.insert(addr, r.target);
+        let n = write(&mut mem, addr, r);
         heap.push(Reverse(T(w, addr)));
-        addr += 1;
+        addr += n;
     }
     let base = addr;
     for now in 0..t.ticks {
@@ -477,7 +526,7 @@ fn wasm_total(t: &Table, cap: u64) -> Option<u64> {
                 break;
             }
         }
-        let run = |body: &Vec<Req>, heap: &mut BinaryHeap<Reverse<T>>, mem: &mut HashMap<u64, usize>| -> bool {
+        let run = |body: &Vec<Req>, heap: &mut BinaryHeap<Reverse<T>>, mem: &mut HashMap<u64, W>| -> bool {
             let mut j = 0;
             for r in body {
                 if r.guard.map_or(true, |g| now < g) {
@@ -485,15 +534,22 @@ fn wasm_total(t: &Table, cap: u64) -> Option<u64> {
                     if w <= now {
                         return false; // rejected by the host call: the run ends here
                     }
-                    mem.insert(base + j, r.target);
+                    let n = write(mem, base + j, r);
                     heap.push(Reverse(T(w, base + j)));
-                    j += 1;
+                    j += n;
                 }
             }
             true
         };
         for x in due {
-            let f = *mem.get(&x.1).unwrap_or(&0);
+            let f = match mem.get(&x.1).copied().unwrap_or(W::Fn(0)) {
+                W::Fn(k) => k,
+                W::Lam(k) => match mem.get(&(x.1 + 1)).copied().unwrap_or(W::Fn(0)) {
+                    W::Up(v) if v > 0.5 => k,
+                    _ => k.saturating_sub(1), // a function word read as a float is a denormal
+                },
+                W::Up(_) => continue, // a captured float read as a function index: `call_indirect` traps, task dropped
+            };
             total += 1;
             if total > cap {
                 return None;
@@ -512,7 +568,11 @@ fn wasm_total(t: &Table, cap: u64) -> Option<u64> {
     Some(total)
 }
 
-fn gen_req(rng: &mut Rng, ntargets: usize, ticks: u64, abs: bool, boundary: bool, must_guard: bool) -> Req {
+/// captured floats of `selK(t, v)` requests; their low 32 bits are far outside any function table
+const UPVS: [f64; 4] = [0.7, 0.3, 0.9, 0.1];
+
+/// `upv_targets > 0`: with probability 1/3 the request is `selK(time, v)` (closure with one upvalue), `K < upv_targets`
+fn gen_req(rng: &mut Rng, ntargets: usize, ticks: u64, abs: bool, boundary: bool, must_guard: bool, upv_targets: usize) -> Req {
     let target = rng.below(ntargets as u64) as usize;
     let frac = *rng.pick(&FRACS);
     let span = if rng.chance(1, 4) { ticks } else { 5 };
@@ -523,7 +583,11 @@ fn gen_req(rng: &mut Rng, ntargets: usize, ticks: u64, abs: bool, boundary: bool
     }
     let guard = if must_guard || rng.chance(1, 2) { Some(1 + rng.below(ticks)) } else { None };
     let lambda = rng.chance(1, 4);
-    Req { abs, c, target, guard, lambda }
+    if upv_targets > 0 && rng.chance(1, 3) {
+        let target = rng.below(upv_targets as u64) as usize;
+        return Req { abs, c, target, guard, lambda: false, upv: Some(*rng.pick(&UPVS)) };
+    }
+    Req { abs, c, target, guard, lambda, upv: None }
 }
 
 fn gen_table(rng: &mut Rng, ticks: u64) -> Table {
@@ -536,13 +600,15 @@ fn gen_table(rng: &mut Rng, ticks: u64) -> Table {
             ticks,
             closure_style: true,
             ntasks: 1,
-            global: vec![Req { abs: true, c: t0, target: 0, guard: None, lambda: false }],
-            tasks: vec![vec![Req { abs: false, c: p, target: 0, guard: None, lambda: false }]],
+            global: vec![Req { abs: true, c: t0, target: 0, guard: None, lambda: false, upv: None }],
+            tasks: vec![vec![Req { abs: false, c: p, target: 0, guard: None, lambda: false, upv: None }]],
             dsp: vec![],
         };
     }
     loop {
         let ntasks = 1 + rng.below(4) as usize;
+        // 1 in 3 tables also makes closures with an upvalue (records of two cells on WASM)
+        let upv = rng.chance(1, 3);
         // 1 in 8 tables contains one boundary request (`trunc when == now`)
         let boundary = rng.chance(1, 8);
         let mut bpos = if boundary { rng.below(3) } else { 9 };
@@ -554,7 +620,7 @@ fn gen_table(rng: &mut Rng, ticks: u64) -> Table {
             if b {
                 bpos = 9;
             }
-            let mut r = gen_req(rng, ntasks, ticks, true, b, false);
+            let mut r = gen_req(rng, ntasks, ticks, true, b, false, if upv { ntasks } else { 0 });
             r.guard = None;
             if rng.chance(1, 3) && !global.is_empty() {
                 // equal time with an earlier request
@@ -574,7 +640,8 @@ fn gen_table(rng: &mut Rng, ticks: u64) -> Table {
                 }
                 // at most one unguarded request per task keeps the population linear
                 let abs = rng.chance(1, 10);
-                v.push(gen_req(rng, ti + 1, ticks, abs, b, j > 0));
+                // `selK` is defined right after `tK`: a body can only use the helpers of earlier functions
+                v.push(gen_req(rng, ti + 1, ticks, abs, b, j > 0, if upv { ti } else { 0 }));
             }
             tasks.push(v);
         }
@@ -585,7 +652,7 @@ fn gen_table(rng: &mut Rng, ticks: u64) -> Table {
                 bpos = 9;
             }
             let abs = rng.chance(1, 10);
-            dsp.push(gen_req(rng, ntasks, ticks, abs, b, false));
+            dsp.push(gen_req(rng, ntasks, ticks, abs, b, false, if upv { ntasks } else { 0 }));
         }
         let t = Table { ticks, closure_style: false, ntasks, global, tasks, dsp };
         if ideal_total(&t, WEIGHT - 1).is_some() && wasm_total(&t, WEIGHT - 1).is_some() {
